@@ -33,6 +33,9 @@ Import ListNotations.
 Require Import RV.Lib.PyStr RV.Model.ContentLine RV.Model.Vobj RV.Model.Export RV.Model.Split.
 Open Scope N_scope.
 Definition eq_os (a b : option pystr) := match a, b with Some x, Some y => eqs x y | None, None => true | _, _ => false end.
+(* model vs implementation on an upload: when the implementation ACCEPTS, the model must give the same bytes; when it
+   refuses, no claim (refusals for value-level reasons -- invalid recurrence set, DTEND with a non-zero DURATION -- are outside the model) *)
+Definition eq_os_acc (m e : option pystr) := match e with None => true | Some y => match m with Some x => eqs x y | None => false end end.
 Fixpoint eq_ls (a b : list pystr) := match a, b with [], [] => true | x :: a', y :: b' => eqs x y && eq_ls a' b' | _, _ => false end.
 Definition eq_params (a b : list (pystr * list pystr)) :=
   (fix go a b := match a, b with [], [] => true | (k, v) :: a', (k', v') :: b' => eqs k k' && eq_ls v v' && go a' b' | _, _ => false end) a b.
@@ -328,7 +331,7 @@ def run(ctx):
     accepted = [c for c in put_cases if c[1] is not None]
     ctx.count("put_model:accepted", len(accepted))
     ctx.count("put_model:refused", len(put_cases) - len(accepted))
-    corr(ctx, "put_model", "put_model", put_cases, enc_str, enc_opt(enc_str), "eq_os",
+    corr(ctx, "put_model", "put_model", put_cases, enc_str, enc_opt(enc_str), "eq_os_acc",
          nontrivial=lambda i, o: o is not None and (len(i) != len(o) or "\r\n " in o))
     # a cache miss recomputes the text from the stored file: must be the stored text (model: reload_model)
     corr(ctx, "reload_model", "reload_model", [(o, real_put_pipeline(ritem, o, "VADDRESSBOOK" if "BEGIN:VCARD" in o else "VCALENDAR"))
